@@ -79,3 +79,95 @@ def in_loop_positions(tree):
                 walk(child, in_loop)
     walk(tree, False)
     return out
+
+
+def conditional_walrus_sites(tree):
+    """{name: set(sites)} of walrus targets that CPython evaluates only conditionally inside their own
+    expression statement: under a non-first and/or operand, a ternary branch, or a comprehension element/condition."""
+    out = {}
+
+    def walk(node, cond):
+        if isinstance(node, ast.NamedExpr) and cond:
+            out.setdefault(node.target.id, set()).add((node.target.lineno, node.target.col_offset))
+        if isinstance(node, ast.BoolOp):
+            for i, v in enumerate(node.values):
+                walk(v, cond or i > 0)
+            return
+        if isinstance(node, ast.IfExp):
+            walk(node.test, cond)
+            walk(node.body, True)
+            walk(node.orelse, True)
+            return
+        if isinstance(node, (ast.ListComp, ast.SetComp, ast.DictComp, ast.GeneratorExp)):
+            for i, g in enumerate(node.generators):
+                walk(g.iter, cond or i > 0)
+                for c in g.ifs:
+                    walk(c, True)
+            for f in ('elt', 'key', 'value'):
+                if hasattr(node, f):
+                    walk(getattr(node, f), True)
+            return
+        for child in ast.iter_child_nodes(node):
+            walk(child, cond)
+    walk(tree, False)
+    return out
+
+
+def split_statement_reads(tree):
+    """Positions of reads that are NOT inside a comprehension but come, in the same simple/compound-header
+    statement, textually after a comprehension, mapped to the names that statement binds.
+    (supp splits the region at a comprehension; bindings of the same statement located later become visible.)"""
+    out = {}
+    comps = (ast.ListComp, ast.SetComp, ast.DictComp, ast.GeneratorExp)
+
+    def header_nodes(st):
+        if isinstance(st, (ast.Assign, ast.AnnAssign, ast.Expr, ast.Return)):
+            return [st]
+        if isinstance(st, ast.With):
+            return list(st.items)
+        if isinstance(st, ast.For):
+            return [st.target, st.iter]
+        return []
+
+    def bound_names(st):
+        names = set()
+        for n in ast.walk(st) if isinstance(st, (ast.Assign, ast.AnnAssign, ast.Expr, ast.Return)) else []:
+            if isinstance(n, ast.Name) and isinstance(n.ctx, ast.Store):
+                names.add(n.id)
+        if isinstance(st, ast.With):
+            for it in st.items:
+                for n in ast.walk(it):
+                    if isinstance(n, ast.Name) and isinstance(n.ctx, ast.Store):
+                        names.add(n.id)
+        if isinstance(st, ast.For):
+            for n in ast.walk(st.target):
+                if isinstance(n, ast.Name):
+                    names.add(n.id)
+        return names
+
+    for st in ast.walk(tree):
+        if not isinstance(st, ast.stmt):
+            continue
+        hn = header_nodes(st)
+        if not hn:
+            continue
+        comp_pos = []
+        inside = set()
+        for h in hn:
+            for n in ast.walk(h):
+                if isinstance(n, comps):
+                    comp_pos.append((n.lineno, n.col_offset))
+                    for m in ast.walk(n):
+                        if isinstance(m, ast.Name):
+                            inside.add((m.lineno, m.col_offset))
+        if not comp_pos:
+            continue
+        first = min(comp_pos)
+        bn = bound_names(st)
+        for h in hn:
+            for n in ast.walk(h):
+                if isinstance(n, ast.Name) and isinstance(n.ctx, ast.Load):
+                    p = (n.lineno, n.col_offset)
+                    if p > first and p not in inside and n.id in bn:
+                        out[p] = bn
+    return out
